@@ -186,6 +186,16 @@ def mentions(t):
     return out
 
 
+MAP_PREFIXES = ("std::collections::HashMap::<K, V, S, A>::", "std::collections::HashMap::<K, V, S>::", "std::collections::BTreeMap::<K, V, A>::", "std::collections::BTreeMap::<K, V>::")
+
+
+def is_map_call(name, *methods):
+    """`name` is a std HashMap / BTreeMap method (optionally one of `methods`): the keyed-map types whose insert replaces by key."""
+    if not isinstance(name, str) or not name.startswith(MAP_PREFIXES):
+        return False
+    return not methods or name.split("::")[-1] in methods
+
+
 def pat_variants(pat):
     """All variant paths named inside a pattern."""
     out = set()
